@@ -63,9 +63,13 @@ def build(cls, variant):
     act = {"fixed": "quantized_bits(4,1,1)", "auto_axis": "quantized_relu(4,1,negative_slope=0.25)",
            "auto_po2_bounds": "quantized_relu(4,1,is_quantized_clip=False,relu_upper_bound=1.5)", "po2": "quantized_relu_po2(4,2)",
            "ternary_auto": "ternary(alpha=2.0,threshold=0.5)", "binary_axis": "quantized_tanh(4,symmetric=1)"}[variant]
-    if variant in ("auto_axis", "po2", "binary_axis"):
-      # half of the variants hand over the quantizer OBJECT (non-default arguments) instead of its string
-      from qkeras.quantizers import get_quantizer
+    from qkeras.quantizers import get_quantizer
+    if none:                        # (no optional quantizer to leave out here: used for one more quantizer class)
+      act = "quantized_hswish(6,2,1,relu_shift=2)"
+    elif variant == "fixed":
+      act = "quantized_linear(4,1,1)"
+    if none or variant in ("fixed", "auto_axis", "po2", "binary_axis"):
+      # most variants hand over the quantizer OBJECT (non-default arguments) instead of its string
       act = get_quantizer(act)
     y = QActivation(act)(i)
   elif cls == "QAdaptiveActivation":
